@@ -32,7 +32,11 @@ CM, CL, CH = 0.0856, 0.845, 0.204
 TKE = 0.8
 
 
+GEOMS = ((None, None), (10.0, None), (3.0, 1.0), (None, 0.5), (20.0, 4.0), (1.5, None), (5.0, 1.5), (100.0, 0.25), (2.0, 2.0))  # domain height > measurement height (equal is a rounding knife-edge of the node count)
+
+
 def lattice(tier):
+    gi = -1
     zms = (1.5, 5.0, 10.0, 50.0)
     ns = (1, 2, 3, 8, 33) if tier == "quick" else (1, 2, 3, 4, 8, 16, 33, 100)
     winds = WINDS[:4] if tier == "quick" else WINDS
@@ -46,7 +50,10 @@ def lattice(tier):
             z0 = most.z0_from_ustar(zm, sp, us, L)
         if not (1e-5 <= z0 < zm / 5):  # physically meaningful roughness lengths (1e-5 m: smooth ice)
             continue
-        yield {"closure": clo, "zm": zm, "n": n, "wind": list(w), "ustar": us, "mol": L, "prsc": pr}
+        # column geometry: (domain height, stretching length) in units of the measurement height, cycling through the
+        # alphabet so that every pair meets every closure / stability / layer count
+        gi = (gi + 1) % len(GEOMS)
+        yield {"closure": clo, "zm": zm, "n": n, "wind": list(w), "ustar": us, "mol": L, "prsc": pr, "geom": list(GEOMS[gi])}
 
 
 def _chunks(it, k):
@@ -75,6 +82,11 @@ def case_profiles(chunk):
         warg = (um, vm) if wform == 0 else ([um, vm] if wform == 1 else np.array([um, vm], dtype=float))
         with warnings.catch_warnings():
             warnings.simplefilter("ignore")
+            dhf, stf = case.get("geom", (None, None))
+            if dhf is not None:
+                kw["domain_height"] = dhf * zm
+            if stf is not None:
+                kw["stretch"] = stf * zm
             z, (u, vv, Kx, Ky, Kz) = vertical_profiles(n, zm, warg, ustar=us, mol=L, prsc=pr, closure=clo, **kw)
         if wform and (float(warg[0]) != um or float(warg[1]) != vm):
             v.append({"sub": "input-modified", "sig": "input-modified/wind", "msg": "vertical_profiles changed the caller's wind %s from (%g, %g) to (%r, %r); case %s" % (type(warg).__name__, um, vm, warg[0], warg[1], core.canon(case))})
@@ -93,8 +105,9 @@ def case_profiles(chunk):
         if len(z) <= n or abs(z[n] - zm) > 1e-10 * zm:
             bad("grid-zm", "z[n=%d] = %r, measurement height %g" % (n, z[n] if len(z) > n else None, zm))
             continue
-        if z[-1] < 2 * zm * (1 - 1e-12):
-            bad("grid-top", "top node %.6g is below the domain height %g" % (z[-1], 2 * zm))
+        top = kw.get("domain_height", 2 * zm)
+        if z[-1] < top * (1 - 1e-12):
+            bad("grid-top", "top node %.6g is below the domain height %g" % (z[-1], top))
         if abs(u[n] - um) > 1e-9 * sp or abs(vv[n] - vm) > 1e-9 * sp:
             bad("wind-at-zm", "wind at the measurement height is (%.9g, %.9g), supplied (%g, %g)" % (u[n], vv[n], um, vm))
         # direction at every node with non-zero speed
@@ -130,7 +143,7 @@ def case_profiles(chunk):
         if clo != "OAAHOC":
             with warnings.catch_warnings():
                 warnings.simplefilter("ignore")
-                z2, p2 = vertical_profiles(n, zm, (um, vm), z0=float(z[0]), mol=L, prsc=pr, closure=clo)
+                z2, p2 = vertical_profiles(n, zm, (um, vm), z0=float(z[0]), mol=L, prsc=pr, closure=clo, **{k_: v_ for k_, v_ in kw.items() if k_ != "tke"})
             nt += 1
             if len(z2) != len(z) or not np.allclose(z2, z, rtol=1e-10, atol=0):
                 bad("roundtrip", "z0-driven twin has a different grid (len %d vs %d)" % (len(z2), len(z)), "roundtrip/grid")
@@ -212,6 +225,67 @@ def hist_op(i):
     return (np.asarray(z), tuple(np.asarray(p) for p in prof))
 
 
+VP_ORDER = ("n", "meas_height", "wind", "ustar", "z0", "mol", "prsc", "closure", "domain_height", "stretch", "z0_min", "z0_max", "tke")
+VP_DEFAULTS = {"ustar": None, "z0": None, "mol": 1e9, "prsc": 1.0, "closure": "MOST", "domain_height": None, "stretch": None, "z0_min": 0.001, "z0_max": 2.0, "tke": None}
+
+
+def case_call_forms(case):
+    """the same profile request written positionally in the released argument order, with the defaults written out, with
+    list / ndarray / numpy-scalar / integer arguments: all forms return what the keyword call returns (which the lattice
+    above judges), and the documented grid contract is re-checked on the positional form (starts at z0, z[n] = zm, reaches
+    the requested domain height)"""
+    from bldfm.pbl_model import vertical_profiles
+
+    kw = dict(case["kw"])
+    kw["wind"] = tuple(kw["wind"])
+    full = dict(VP_DEFAULTS)
+    full.update(kw)
+    ref = vertical_profiles(**kw)
+    forms = [("all-positional", [full[k] for k in VP_ORDER], {}),
+             ("defaults-written-out", [], dict(full)),
+             ("ten-positional", [full[k] for k in VP_ORDER[:10]], {k: full[k] for k in VP_ORDER[10:]}),
+             ("three-positional", [full[k] for k in VP_ORDER[:3]], {k: v for k, v in kw.items() if k not in VP_ORDER[:3]}),
+             ("wind-list", [], dict(kw, wind=list(kw["wind"]))),
+             ("wind-ndarray", [], dict(kw, wind=np.array(kw["wind"], dtype=float))),
+             ("numpy-scalars", [], {k: (np.float64(v) if isinstance(v, float) else (np.int64(v) if isinstance(v, int) and not isinstance(v, bool) else v)) for k, v in kw.items()})]
+    if float(kw["meas_height"]).is_integer():
+        forms.append(("integer-height", [], dict(kw, meas_height=int(kw["meas_height"]))))
+    v = []
+    lab = core.canon(case)
+
+    def flat(r):
+        return [np.asarray(r[0], dtype=float)] + [np.asarray(p, dtype=float) for p in r[1]]
+
+    R = flat(ref)
+    for name, a, k in forms:
+        try:
+            got = flat(vertical_profiles(*a, **k))
+        except Exception as e:  # noqa
+            v.append({"sub": "call-forms", "sig": "call-forms/refused/%s" % name, "msg": "request written as %s raises %s: %s; %s" % (name, type(e).__name__, str(e)[:100], lab)})
+            continue
+        if len(got[0]) != len(R[0]) or any(not np.allclose(x, y, rtol=1e-12, atol=1e-14, equal_nan=True) for x, y in zip(got, R)):
+            v.append({"sub": "call-forms", "sig": "call-forms/%s" % name, "msg": "request written as %s: %d nodes up to %.4g m, the keyword call gives %d nodes up to %.4g m; %s" % (name, len(got[0]), got[0][-1], len(R[0]), R[0][-1], lab)})
+    dh = kw.get("domain_height")
+    if dh is not None and not R[0][-1] >= dh * (1 - 1e-12):
+        v.append({"sub": "call-forms", "sig": "call-forms/domain-height", "msg": "keyword call: the grid ends at %.4g m below the requested domain height %g; %s" % (R[0][-1], dh, lab)})
+    return {"v": v[:4], "nt": True, "n": len(forms) + 1}
+
+
+def form_cases():
+    for clo, forcing, geom in itertools.product(("MOST", "MOSTM", "CONSTANT", "OAAHOC"), ("ustar", "z0"), ((None, None), (50.0, 15.0), (30.0, None), (None, 12.0))):
+        if clo == "OAAHOC" and forcing == "z0":
+            continue
+        kw = {"n": 6, "meas_height": 10.0, "wind": [3.0, -1.5], "mol": -80.0 if clo != "CONSTANT" else 1e9, "closure": clo}
+        kw.update({"ustar": 0.35} if forcing == "ustar" else {"z0": 0.07})
+        if geom[0] is not None:
+            kw["domain_height"] = geom[0]
+        if geom[1] is not None:
+            kw["stretch"] = geom[1]
+        if clo == "OAAHOC":
+            kw["tke"] = 0.8
+        yield {"kw": kw}
+
+
 def run(ctx):
     cases = list(lattice(ctx.tier))
     ctx.rule = (
@@ -221,6 +295,7 @@ def run(ctx):
     )
     res = ctx.run_cases(case_profiles, list(_chunks(cases, 64)), sub="profiles", chunksize=1)
     ctx.run_cases(case_functions, [{"functions": "psi,phi"}], sub="stability-functions", serial=True)
+    ctx.run_cases(case_call_forms, form_cases(), sub="the same request in other call forms")
     ctx.cov["lattice_points_physically_consistent"] = len(cases)
     from vf import histories
 
